@@ -730,6 +730,10 @@ func doBatch(c *vlib.Ctx, s *server, b BatchJ, verbose bool) {
 		cfg.byMh[string(mh)] = it.Results
 		mhs = append(mhs, mh)
 	}
+	// the same multihash listed twice holds one result list on the server: the last one
+	for i := range b.Items {
+		b.Items[i].Results = cfg.byMh[string(unhx(b.Items[i].Mh))]
+	}
 	s.configure(cfg)
 	cl, err := client.New(s.ts.URL, client.WithClient(s.ts.Client()))
 	if err != nil {
